@@ -121,7 +121,7 @@ def _impl_header(repo, path, l1, c1, l2, c2):
     return txt
 
 
-def normalise_name(raw, repo):
+def normalise_name(raw, repo, first_param=None):
     """`terminator::<impl at f.rs:17:1: 17:16>::wake_up` -> `Terminator::wake_up`
     `x::<impl at ..>::m` for `impl Tr for Ty` -> `<Ty as Tr>::m`."""
     m = _IMPL_RE.search(raw)
@@ -132,6 +132,11 @@ def normalise_name(raw, repo):
     if not hdr:
         return "<impl?>" + rest
     h = hdr.strip()
+    if not re.match(r"^(unsafe\s+)?impl\b", h):
+        # #[derive(Trait)]: the span covers the trait name; the self type is the first parameter's type
+        ty = (first_param or "Self").strip()
+        ty = re.sub(r"^&(mut )?", "", ty)
+        return "<%s as %s>%s" % (ty, h, rest)
     h = re.sub(r"^unsafe\s+", "", h)
     h = re.sub(r"^impl\s*", "", h)
     if h.startswith("<"):
@@ -229,6 +234,18 @@ class Program:
             ex = [f for f in cands if strip_generics(f.name) == key]
             if len(ex) == 1:
                 return ex[0]
+        # impls generated by derives are named after the first parameter's type, which is not the
+        # self type for associated functions: match on trait + function name + arity
+        m = re.match(r"^<(.*) as ([^<>]*)(<.*>)?>::(\w+)$", key)
+        if m and not cands:
+            tr, last = m.group(2).split("::")[-1], m.group(4)
+            c3 = []
+            for f in self.by_last.get(last, []):
+                m2 = re.match(r"^<(.*) as ([^<>]*)(<.*>)?>::(\w+)(#\d+)?$", strip_generics(f.name))
+                if m2 and m2.group(2).split("::")[-1] == tr and (nparams is None or len(f.params) == nparams):
+                    c3.append(f)
+            if len(c3) == 1:
+                return c3[0]
         return None
 
 
@@ -306,9 +323,11 @@ def _parse_fn(lines, i, fns, order, repo, kind):
             m = re.match(r"^_(\d+): (.*)$", part)
             params.append((int(m.group(1)), m.group(2)))
     else:
-        m = re.match(r"^(?:const|static(?: mut)?) (.+?): (.+) = \{$", hdr)
-        rawname, ret, params = m.group(1), m.group(2), []
-    name = normalise_name(rawname, repo)
+        # `<impl at file:l:c: l:c>` contains ": " itself: mask it while splitting name from type
+        masked = _IMPL_RE.sub(lambda mm: "\x00" * len(mm.group(0)), hdr)
+        m = re.match(r"^(?:const|static(?: mut)?) (.+?): (.+) = \{$", masked)
+        rawname, ret, params = hdr[m.start(1):m.end(1)], hdr[m.start(2):m.end(2)], []
+    name = normalise_name(rawname, repo, params[0][1] if params else None)
     fn = Fn(name, rawname, params, ret, kind)
     fn.header_line = i + 1
     for idx, ty in params:
